@@ -467,6 +467,39 @@ def alias_probe(rng, uid, stream):
     pa, pb = rng.choice([('-1', '-2'), ('-2', '-1'), ('0', '2**61-1'), ('1', '2**61'), ('2**61', '1'), ('1', 'True'), ('1.0', '1'), ('True', '1.0')])
     decls = _inner(f'Inner_{u}', 's.in_ + k', ', p', '    k = ( len( str( p ) ) * 7 + int( p ) % 5 ) % 100\n')
     src, expect = _two(u, decls, f'Inner_{u}( {pa} )', f'Inner_{u}( {pb} )'), 'clean'
+  elif stream in ('explicit-name-parametrized', 'explicit-name-different-parameters'):
+    # explicit_module_name on a NON-top component that has construct parameters: set inside construct() or from outside,
+    # one / two instances, same / different parameters, directly under the top or one level deeper
+    wa = rng.choice([4, 8, 16])
+    if stream == 'explicit-name-different-parameters':
+      variant, wb = rng.choice(['inside', 'outside']), rng.choice([w for w in (4, 8, 16) if w != wa])
+    else:
+      variant, wb = rng.choice(['inside-one', 'inside-two-same', 'outside-one-of-two', 'outside-other-params', 'nested-inside', 'nested-outside']), wa
+      if variant == 'outside-other-params': wb = rng.choice([w for w in (4, 8, 16) if w != wa])
+    inside = variant.startswith('inside') or variant in ('nested-inside',)
+    ename = f'RF_{wa}x_{u}'
+    rf = (f'class RF_{u}( Component ):\n  def construct( s, nbits=8, k={k1} ):\n    s.in_ = InPort( nbits ); s.out = OutPort( nbits )\n'
+          + (f'    s.set_metadata( VerilogTranslationPass.explicit_module_name, "{ename}" )\n' if inside else '') +
+          f'    @update\n    def up():\n      s.out @= s.in_ + k\n')
+    bank = (f'class Bank_{u}( Component ):\n  def construct( s, w ):\n    s.in_ = InPort( w ); s.out = OutPort( w )\n'
+            f'    s.rf = RF_{u}( w ); s.rf.in_ //= s.in_; s.out //= s.rf.out\n')
+    nested = variant.startswith('nested')
+    one = variant in ('inside-one',)
+    ea = f'Bank_{u}( {wa} )' if nested else f'RF_{u}( {wa} )'
+    eb = f'Bank_{u}( {wb} )' if nested else f'RF_{u}( {wb} )'
+    top = (f'class Top_{u}( Component ):\n  def construct( s ):\n'
+           f'    s.i1 = InPort( {wa} ); s.o1 = OutPort( {wa} ); s.a = {ea}; s.a.in_ //= s.i1; s.o1 //= s.a.out\n' +
+           ('' if one else f'    s.i2 = InPort( {wb} ); s.o2 = OutPort( {wb} ); s.b = {eb}; s.b.in_ //= s.i2; s.o2 //= s.b.out\n'))
+    outside_targets = {'outside-one-of-two': ['a'], 'outside-other-params': ['a'], 'nested-outside': ['a.rf', 'b.rf'], 'outside': ['a', 'b']}.get(variant, [])
+    # (also called for a sub-tree translated as a top of its own: the paths are tried relative to it)
+    paths = outside_targets + sorted({t.split('.', 1)[1] for t in outside_targets if '.' in t})
+    pre = ('def pre_translate( top, backend ):\n  for path in ' + repr(paths) + ':\n    obj = top\n    try:\n'
+           '      for part in path.split( "." ): obj = getattr( obj, part )\n    except AttributeError:\n      continue\n'
+           f'    obj.set_metadata( VerilogTranslationPass.explicit_module_name, "{ename}" )\n')
+    src = (f'from pymtl3 import *\nfrom pymtl3.passes.backends.verilog import VerilogTranslationPass\n' + rf + bank + top +
+           f'def make_top():\n  return Top_{u}()\n' + pre)
+    return {'uid': f'p{uid}', 'kind': 'probe', 'stream': stream, 'expect': 'clean' if stream == 'explicit-name-parametrized' else 'alias',
+            'module': f'c13_p{uid}', 'source': src, 'extra_modules': [], 'walk': False, 'features': ['probe:' + stream, 'explicit:' + variant]}
   elif stream == 'sibling-internal-structs':
     # sibling sub-components that each use a bitstruct type of their own on an INTERNAL wire only: the order of the
     # typedefs at the head of the file is the order in which the translator reaches the siblings
@@ -521,6 +554,7 @@ ALIAS_STREAMS = [
   'struct-same-name-different-fields', 'object-repr-param',
   'set-param-different-values', 'bitstruct-subclass', 'nested-collision-under-same-named-parents', 'newline-param',
   'hash-equal-params', 'placeholder-child-explicit-name', 'sibling-internal-structs',
+  'explicit-name-parametrized', 'explicit-name-different-parameters',
 ]
 
 # ---------------------------------------------------------------------- several enabled sub-trees, ONE pass application
